@@ -105,6 +105,8 @@ def add_child_contract(c, typed, pos_fn=None, target_fn=None, kind_fn=None, has_
 
     c.raises("UniqueConstraintError", when=lambda x: And(Not(bad_before(x)), Or(own_child(x), id_conflict(x), And(Not(bad_nid(x)), clash(x)))), ensures=lambda x: And(obs_unchanged_but_fresh(x), wf1(x)), props=("C03", "C13"))
     c.may_raise("AssertionError", ensures=lambda x: And(obs_unchanged_but_fresh(x), wf1(x)), props=("C13",), name="node_id refused")
+    if typed:  # see TypedNode.__init__: CPython reports the refused node id through the repr of the half-built node
+        c.may_raise("AttributeError", ensures=lambda x: And(obs_unchanged_but_fresh(x), wf1(x)), props=("C13",), name="node_id refused (AttributeError from the assert message)")
     # only the data path calls the user's calc_data_id callback (a node argument brings its id along)
     c.may_raise("Callback", ensures=lambda x: And(obs_unchanged_but_fresh(x), wf1(x)), props=("C13",), name="calc_data_id callback raises",
                 when=lambda x: z3.BoolVal(not is_node_child(x) and x.a.tag("data_id") == "none"))
@@ -146,7 +148,7 @@ def obs_unchanged_but_fresh(x):
     l, i = L.fresh("l", L.LRef), L.fresh("i", L.I)
     if not (z3.eq(h0.llen, h.llen) and z3.eq(h0.litem, h.litem)):
         cs += [ForAll([l], Implies(h0.lalloc(l), h.llen(l) == h0.llen(l)), patterns=[h.llen(l)]), ForAll([l, i], Implies(h0.lalloc(l), h.litem(l, i) == h0.litem(l, i)), patterns=[h.litem(l, i)])]
-    cs.append(obs_dicts_unchanged(x))
+    cs.append(obs_dicts_unchanged(x, pre_existing_only=True))
     cs.append(alloc_monotone(x))
     return And(*cs)
 
@@ -403,7 +405,10 @@ def _(c):
 # ------------------------------------------------------------------ remove / remove_children (C01 C02 C04)
 def removed_set(h0, T, s, with_self):
     """x is removed: a proper descendant of s (or s itself)."""
-    return (lambda o: in_subtree(h0, o, s)) if with_self else (lambda o: L.is_desc(h0, o, s))
+    if with_self:
+        return lambda o: in_subtree(h0, o, s)
+    # E / is_desc walk through non-root nodes only: below the invisible root, every member is a descendant
+    return lambda o: Or(L.is_desc(h0, o, s), And(s == h0._root(T), h0.mem(T, o)))
 
 
 def survivors_frame(x, T, gone, extra_lists=()):
@@ -627,7 +632,7 @@ def _(c):
     c.requires("wf", lambda x: wf0(x))
     o = L.fresh("o", L.Ref)
     c.ensures("no members left, root has no children, tree well-formed", lambda x: And(wf1(x), x.h._children(x.h._root(x.a.self)) == LNONE, x.h.clen(x.h._root(x.a.self)) == 0,
-                                                                                     ForAll([o], Implies(x.h.mem(x.a.self, o), L.is_desc(x.h0, o, x.h0._root(x.a.self)) == False), patterns=[x.h._node_id(o)])))  # noqa: E712
+                                                                                     ForAll([o], Not(x.h.mem(x.a.self, o)), patterns=[x.h._node_id(o)])))
 
 
 @contract("nutree.tree.Tree.__delitem__", props=("C01", "C02", "C04", "C09"))
